@@ -37,7 +37,7 @@ REACH = [("yamlpath/processor.py", "_get_nodes_by_key,_get_nodes_by_index,_get_n
          ("yamlpath/common/searches.py", "search_matches", "Searches.search_matches")]
 EXHAUSTIVE_NOTE = "documents <=3 nodes x paths <=2 segments over the reduced vocabulary (thorough tier only)"
 SIZES = {"quick": dict(grid_stride=4, rnd=240000), "thorough": dict(grid_stride=1, rnd=2500000)}
-REQUIRED_COUNTERS = ["model_decided", "compared_required"]
+REQUIRED_COUNTERS = ["model_decided", "compared_required", "docs_with_shared_containers"]
 
 
 def flatten(x, out):
@@ -310,8 +310,13 @@ def run_shard(ctx):
     done = 0
     want = sz["rnd"] // ctx.nshards
     while done < want:
-        if rng.random() < 0.08:
+        x = rng.random()
+        if x < 0.08:
             text, regime = rng.choice(gd.HOSTILE), "H"
+        elif x < 0.13:
+            # one Hash / Array held under two or three parents (anchor + aliases): every place it is held is a place
+            text, regime = gd.gen_aliased_container_doc(rng), "S"
+            ctx.count("docs_with_shared_containers")
         else:
             text, regime = gd.gen_doc(rng)
         try:
